@@ -54,9 +54,10 @@ func init() {
 // ------------------------------------------------------------------ model <-> real bindings
 
 type c18Line struct {
-	K int  `json:"k"`
-	V int  `json:"v"`
-	T bool `json:"t"`
+	K int    `json:"k"`
+	V int    `json:"v"`
+	S string `json:"s"` // shape: the branch of SaveGlobals that writes it (data, lambda, named, alias)
+	T bool   `json:"t"`
 }
 
 type c18File struct {
@@ -78,23 +79,35 @@ type c18Gen struct {
 	End  string             `json:"end"`
 }
 
-var c18Names = []string{"", "a", "b", "c"}
+const c18Letters = "abcde" // binding k is named c18Letters[k-1]: file order = index order
 
-// grol source that binds name k to value version v: an integer, a string with escapes, an
-// array holding a float, a map and booleans, a lambda, and two named functions.
-var c18Defs = map[[2]int]string{
-	{1, 1}: `a=-42`,
-	{1, 2}: `a="q\"uo\te\n#"`,
-	{2, 1}: `b=[1,2.5,"x",{"k":[true,false]}]`,
-	{2, 2}: `b=(x,y)=>x*y+1`,
-	{3, 1}: `func c(x){x+1}`,
-	{3, 2}: `func c(x,y){if x>y{x}else{y*2}}`,
+func c18Name(k int) string { return c18Letters[k-1 : k] }
+
+// c18Src: grol source that binds name k to value version v of shape s. The shapes are the ways
+// SaveGlobals writes a binding: "data" name=value (integer, string with escapes, array holding a
+// float and a map, map), "lambda" name=params=>body, "named" func name(..){..} (its own branch),
+// "alias" name=func other(..){..} (a named function held under another name; the literal also
+// defines `other`, which the session deletes again so that the binding stands alone).
+func c18Src(l c18Line) string {
+	x := c18Name(l.K)
+	switch l.S {
+	case "lambda":
+		return x + []string{"=(x,y)=>x*y+1", "=x=>[x,2.5]"}[l.V-1]
+	case "named":
+		return "func " + x + []string{"(x){x+1}", "(x,y){if x>y{x}else{y*2}}"}[l.V-1]
+	case "alias":
+		return x + "=func h" + x + []string{"(q){q+1}", "(q,r){q*r}"}[l.V-1] + ";del(h" + x + ")"
+	}
+	if l.K == 1 {
+		return x + []string{`=-42`, `="q\"uo\te\n#"`}[l.V-1]
+	}
+	return x + []string{`=[1,2.5,"x",{"k":[true,false]}]`, `={"z":[3],1:-7}`}[l.V-1]
 }
 
 func c18Key(ls []c18Line) string {
 	var sb strings.Builder
 	for _, l := range ls {
-		fmt.Fprintf(&sb, "%d:%d", l.K, l.V)
+		fmt.Fprintf(&sb, "%d:%d%.1s", l.K, l.V, l.S)
 		if l.T {
 			sb.WriteByte('~')
 		}
@@ -106,7 +119,7 @@ func c18Key(ls []c18Line) string {
 func c18FullSrc(ls []c18Line) string {
 	var parts []string
 	for _, l := range ls {
-		parts = append(parts, c18Defs[[2]int{l.K, l.V}])
+		parts = append(parts, c18Src(l))
 	}
 	if len(parts) == 0 {
 		return "zz=1;del(zz)" // a changed session whose globals are empty again
@@ -114,30 +127,36 @@ func c18FullSrc(ls []c18Line) string {
 	return strings.Join(parts, "\n")
 }
 
-// c18Delta is the input a session types to get from globals `mem` to globals `nw`.
-func c18Delta(mem, nw []c18Line, changed bool) string {
+// c18Delta is the input a session types to get from globals `mem` to globals `nw`. loaded: the
+// globals were auto-loaded by this process (an alias line then also defined its function name).
+func c18Delta(mem, nw []c18Line, changed, loaded bool) string {
 	if !changed {
 		return ""
 	}
-	mv, nv := map[int]int{}, map[int]int{}
+	mv, nv := map[int]c18Line{}, map[int]c18Line{}
 	for _, l := range mem {
-		mv[l.K] = l.V
+		mv[l.K] = l
 	}
 	for _, l := range nw {
-		nv[l.K] = l.V
+		nv[l.K] = l
 	}
 	var parts []string
-	for k := 1; k < len(c18Names); k++ {
+	for k := 1; k <= len(c18Letters); k++ {
+		if loaded && mv[k].S == "alias" {
+			parts = append(parts, "del(h"+c18Name(k)+")")
+		}
+	}
+	for k := 1; k <= len(c18Letters); k++ {
 		switch {
-		case nv[k] != 0 && nv[k] != mv[k]:
-			parts = append(parts, c18Defs[[2]int{k, nv[k]}])
-		case nv[k] == 0 && mv[k] != 0:
-			parts = append(parts, "del("+c18Names[k]+")")
+		case nv[k].V != 0 && nv[k].V != mv[k].V:
+			parts = append(parts, c18Src(nv[k]))
+		case nv[k].V == 0 && mv[k].V != 0:
+			parts = append(parts, "del("+c18Name(k)+")")
 		}
 	}
 	if len(parts) == 0 { // something was set, the values are what they were
 		if len(nw) > 0 {
-			parts = append(parts, c18Defs[[2]int{nw[0].K, nw[0].V}])
+			parts = append(parts, c18Src(nw[0]))
 		} else {
 			parts = append(parts, "zz=1;del(zz)")
 		}
@@ -497,6 +516,8 @@ func c18Gr(ls []c18Ent) (data []byte, ex bool, ent *c18Ent) {
 	return nil, false, nil
 }
 
+var reC18Helper = regexp.MustCompile(`^func h([a-e])\(`)
+
 var reC18Temp = regexp.MustCompile(`^\.grol.*\.tmp$`)
 
 func c18Load(dir string, ext bool) ([]byte, string, error) {
@@ -542,14 +563,39 @@ func (r *c18Refs) dir() string {
 	return d
 }
 
-func c18Contents(n int, vals []int) [][]c18Line {
+// c18Universe: the binding shapes of one TLC space (Shape(k) of AutoSave.tla) and its value versions.
+type c18Universe struct {
+	Shapes []string
+	Vals   []int
+}
+
+var (
+	c18Legacy = c18Universe{[]string{"data", "lambda", "named"}, []int{1, 2}}
+	// every branch of SaveGlobals, each with a binding after it: a data, b named, c alias, d lambda, e data
+	c18ShapeU = c18Universe{[]string{"data", "named", "alias", "lambda", "data"}, []int{1}}
+)
+
+func (u c18Universe) cfg() string {
+	set := func(shape string) string {
+		var xs []string
+		for i, s := range u.Shapes {
+			if s == shape {
+				xs = append(xs, strconv.Itoa(i+1))
+			}
+		}
+		return "{" + strings.Join(xs, ",") + "}"
+	}
+	return fmt.Sprintf(" Lambdas = %s\n Nameds = %s\n Aliases = %s\n", set("lambda"), set("named"), set("alias"))
+}
+
+func c18Contents(u c18Universe, n int) [][]c18Line {
 	res := [][]c18Line{nil}
 	for k := 1; k <= n; k++ {
 		var next [][]c18Line
 		for _, c := range res {
 			next = append(next, c)
-			for _, v := range vals {
-				next = append(next, append(append([]c18Line{}, c...), c18Line{K: k, V: v}))
+			for _, v := range u.Vals {
+				next = append(next, append(append([]c18Line{}, c...), c18Line{K: k, V: v, S: u.Shapes[k-1]}))
 			}
 		}
 		res = next
@@ -561,7 +607,7 @@ func c18Contents(n int, vals []int) [][]c18Line {
 func newC18Refs(root string, par int) (*c18Refs, error) {
 	r := &c18Refs{root: root, loads: map[string][]byte{}, line: map[string]c18Line{}}
 	r.file[0], r.file[1] = map[string][]byte{}, map[string][]byte{}
-	conts := c18Contents(3, []int{1, 2})
+	conts := append(c18Contents(c18Legacy, 3), c18Contents(c18ShapeU, 5)[1:]...)
 	type job struct {
 		ext int
 		c   []c18Line
@@ -611,6 +657,7 @@ func newC18Refs(root string, par int) (*c18Refs, error) {
 			r.line[string(r.file[0][c18Key(c)])] = c[0]
 		}
 	}
+	noReload := 0
 	for _, c := range conts {
 		var want []byte
 		for _, l := range c {
@@ -620,15 +667,21 @@ func newC18Refs(root string, par int) (*c18Refs, error) {
 			return nil, fmt.Errorf("reference save of %q is not the concatenation of its binding lines: %q", c18Key(c), r.file[0][c18Key(c)])
 		}
 		if got := r.loads[r.loadKey(false, want, true)]; !bytes.Equal(got, want) {
-			r.notes = append(r.notes, fmt.Sprintf("content %q does not reload to itself (a C14 matter; C18 compares with what the complete file restores)", c18Key(c)))
+			noReload++
+			if noReload == 1 {
+				r.notes = append(r.notes, fmt.Sprintf("content %q does not reload to itself, e.g. an alias line name=func other(..){..} also defines `other` (a C14 matter; C18 compares with what the complete file restores)", c18Key(c)))
+			}
 		}
+	}
+	if noReload > 1 {
+		r.notes = append(r.notes, fmt.Sprintf("%d reference contents in all do not reload to themselves", noReload))
 	}
 	return r, nil
 }
 
 func (r *c18Refs) lineBytes(l c18Line) []byte {
 	for b, x := range r.line {
-		if x.K == l.K && x.V == l.V {
+		if x.K == l.K && x.V == l.V && x.S == l.S {
 			return []byte(b)
 		}
 	}
@@ -708,7 +761,7 @@ func (r *c18Refs) abstract(data []byte, nw []c18Line) []c18Line {
 		t := c18Line{T: true}
 		if i < len(nw) {
 			if full := r.lineBytes(nw[i]); len(l) < len(full) && bytes.HasPrefix(full, l) {
-				t.K, t.V = nw[i].K, nw[i].V
+				t.K, t.V, t.S = nw[i].K, nw[i].V, nw[i].S
 			}
 		}
 		res = append(res, t)
@@ -882,7 +935,7 @@ func c18Plan(g *c18Gen, r *c18Refs, v c18Variant) ([]c18ProcPlan, error) {
 	gr := g.H[0].Old.Ls
 	var procs []c18ProcPlan
 	for si, s := range ss {
-		sp := c18SessPlan{New: s.nw, Changed: s.changed, Step: c18Step{Src: c18Delta(mem, s.nw, s.changed), Fsize: -1}}
+		sp := c18SessPlan{New: s.nw, Changed: s.changed, Step: c18Step{Src: c18Delta(mem, s.nw, s.changed, s.kind != "retry"), Fsize: -1}}
 		st := &sp.Step
 		acts := s.acts
 		crashed := len(acts) > 0 && acts[len(acts)-1].A == "crash"
@@ -1233,7 +1286,19 @@ func c18RunCase(g *c18Gen, v c18Variant, r *c18Refs, dir string, load c18LoadFn)
 			restored, lastWhere, v, wantOld, wantNew)
 	}
 	if traceOK {
-		res.Trace = append(res.Trace, map[string]any{"e": "load", "lines": r.abstract(restored, nil)})
+		// an alias line name=func hname(..){..} also defines hname when it is loaded: that by-product is a
+		// save/load round-trip matter (C14), not a line of the state file
+		var ll []c18Line
+		for _, piece := range c18Split(restored) {
+			if m := reC18Helper.FindSubmatch(piece); m != nil && bytes.Contains(restored, []byte("\n"+string(m[1])+"=func h"+string(m[1])+"(")) || m != nil && bytes.HasPrefix(restored, []byte(string(m[1])+"=func h"+string(m[1])+"(")) {
+				continue
+			}
+			ll = append(ll, r.abstract(piece, nil)...)
+		}
+		if ll == nil {
+			ll = []c18Line{}
+		}
+		res.Trace = append(res.Trace, map[string]any{"e": "load", "lines": ll})
 	}
 	// model prediction (diagnostic)
 	data, ex, _ := c18Gr(final)
@@ -1474,15 +1539,20 @@ func c18RunSys(g *c18Gen, v c18Variant, r *c18Refs, dir string, load c18LoadFn, 
 
 // ------------------------------------------------------------------ the check
 
-func c18Cfg(n int, vals string, sessions int, dev string, emit bool, mode string) string {
+func c18Cfg(u c18Universe, n int, maxOld int, sessions int, dev string, emit bool, mode string) string {
+	var vs []string
+	for _, v := range u.Vals {
+		vs = append(vs, strconv.Itoa(v))
+	}
+	vals := "{" + strings.Join(vs, ",") + "}"
 	b := func(x bool) string {
 		if x {
 			return "TRUE"
 		}
 		return "FALSE"
 	}
-	s := fmt.Sprintf("CONSTANTS\n N = %d\n Vals = %s\n MaxSessions = %d\n DirectWrite = %s\n IgnoreWriteError = %s\n RenameEarly = %s\n EmitOn = %s\n",
-		n, vals, sessions, b(dev == "DirectWrite"), b(dev == "IgnoreWriteError"), b(dev == "RenameEarly"), b(emit))
+	s := fmt.Sprintf("CONSTANTS\n N = %d\n%s MaxOld = %d\n Vals = %s\n MaxSessions = %d\n DirectWrite = %s\n IgnoreWriteError = %s\n RenameEarly = %s\n EmitOn = %s\n",
+		n, c18Universe{Shapes: u.Shapes[:n]}.cfg(), maxOld, vals, sessions, b(dev == "DirectWrite"), b(dev == "IgnoreWriteError"), b(dev == "RenameEarly"), b(emit))
 	switch mode {
 	case "trace", "trace-strict":
 		return s + " StrictTemp = " + b(mode == "trace-strict") + "\nINIT TraceInit\nNEXT TraceNext\nINVARIANTS Atomic FailedLeavesOld LoadedOldOrNew StateFileWhole\nPOSTCONDITION TraceAccepted\n"
@@ -1529,7 +1599,7 @@ func c18TV(c *Ctx, runs [][]map[string]any, strict bool) (rejected int, why stri
 	if strict {
 		mode = "trace-strict"
 	}
-	r, err := c.TLC(TLCOpt{Spec: "AutoSave_Trace", Cfg: c18Cfg(3, "{1,2}", 3, "", false, mode), Workers: 1,
+	r, err := c.TLC(TLCOpt{Spec: "AutoSave_Trace", Cfg: c18Cfg(c18Legacy, 3, 3, 3, "", false, mode), Workers: 1,
 		Files: map[string][]byte{"autosave_trace.ndjson": buf.Bytes()}, AllowError: true})
 	if err != nil {
 		return -1, "", err
@@ -1577,7 +1647,7 @@ func checkC18(c *Ctx) {
 		devs = devs[:1]
 	}
 	for _, dev := range devs {
-		r, err := c.TLC(TLCOpt{Spec: "AutoSave", Cfg: c18Cfg(2, "{1}", 1, dev, false, "deviation"), Workers: 1, AllowError: true})
+		r, err := c.TLC(TLCOpt{Spec: "AutoSave", Cfg: c18Cfg(c18Universe{c18Legacy.Shapes, []int{1}}, 2, 2, 1, dev, false, "deviation"), Workers: 1, AllowError: true})
 		if err != nil {
 			c.Infra(err)
 			return
@@ -1597,19 +1667,28 @@ func checkC18(c *Ctx) {
 
 	// 2. MC + GEN.
 	type space struct {
+		u        c18Universe
 		n        int
-		vals     string
+		maxOld   int
 		sessions int
 		emit     bool
-		budget   int // 0 = replay every emitted behaviour
+		budget   int                // 0 = replay every emitted behaviour
+		must     func(*c18Gen) bool // behaviours replayed whatever the budget (nil: none)
+	}
+	one := func(u c18Universe) c18Universe { return c18Universe{u.Shapes, u.Vals[:1]} }
+	// a write that fails (hook error after the binding, or a real short write inside it) at a binding position, no crash after it
+	faultAtBinding := func(g *c18Gen) bool {
+		return g.End == "fail" && g.H[len(g.H)-1].A == "writefails" && g.H[0].Old.Ex
 	}
 	var spaces []space
 	if c.Thorough() {
-		spaces = []space{{3, "{1,2}", 1, true, 0}, {2, "{1,2}", 2, true, 2000}, {2, "{1}", 3, false, 0}}
+		spaces = []space{{c18Legacy, 3, 3, 1, true, 0, nil}, {c18ShapeU, 5, 0, 1, true, 0, nil}, {c18Legacy, 2, 2, 2, true, 2000, nil}, {one(c18Legacy), 2, 2, 3, false, 0, nil}}
 	} else {
-		spaces = []space{{2, "{1}", 1, true, 0}, {2, "{1,2}", 1, true, 350}, {2, "{1}", 2, true, 150}, {3, "{1,2}", 1, false, 0}}
+		spaces = []space{{one(c18Legacy), 2, 2, 1, true, 0, nil}, {c18ShapeU, 5, 0, 1, true, 120, faultAtBinding}, {c18Legacy, 2, 2, 1, true, 350, nil},
+			{one(c18Legacy), 2, 2, 2, true, 150, nil}, {c18Legacy, 3, 3, 1, false, 0, nil}}
 	}
 	var cases, extras, sysPool []c18Case
+	var sysFull *c18Case
 	exhaustive := true
 	_, straceErr := exec.LookPath("strace")
 	haveStrace := straceErr == nil
@@ -1626,7 +1705,7 @@ func checkC18(c *Ctx) {
 		if sp.emit {
 			workers = 1 // one worker: the witness history kept for a state, and with it the emitted set, is deterministic
 		}
-		r, err := c.TLC(TLCOpt{Spec: "AutoSave", Cfg: c18Cfg(sp.n, sp.vals, sp.sessions, "", sp.emit, "mc"), Workers: workers, Coverage: c.Thorough() && !sp.emit})
+		r, err := c.TLC(TLCOpt{Spec: "AutoSave", Cfg: c18Cfg(sp.u, sp.n, sp.maxOld, sp.sessions, "", sp.emit, "mc"), Workers: workers, Coverage: c.Thorough() && !sp.emit})
 		if err != nil {
 			c.Infra(err)
 			return
@@ -1645,7 +1724,7 @@ func checkC18(c *Ctx) {
 			c.Cov("vacuous_actions", []string{})
 		}
 		if !sp.emit {
-			c.Note("AutoSave MC N=%d Vals=%s sessions=%d: %d states, %d transitions, invariants and action properties hold", sp.n, sp.vals, sp.sessions, r.Distinct, r.Generated)
+			c.Note("AutoSave MC N=%d shapes=%v Vals=%v sessions=%d: %d states, %d transitions, invariants and action properties hold", sp.n, sp.u.Shapes[:sp.n], sp.u.Vals, sp.sessions, r.Distinct, r.Generated)
 			continue
 		}
 		var lines []string
@@ -1667,12 +1746,26 @@ func checkC18(c *Ctx) {
 			}
 			exhaustive = false
 		}
-		picked := 0
-		for i := off; i < len(lines); i += stride {
+		picked, forced := 0, 0
+		for i := 0; i < len(lines); i++ {
+			inStride := i >= off && (i-off)%stride == 0
+			if !inStride && sp.must == nil {
+				continue
+			}
 			g := &c18Gen{}
 			if err := json.Unmarshal([]byte(lines[i]), g); err != nil {
 				c.Infra(fmt.Errorf("GEN line: %v: %.200s", err, lines[i]))
 				return
+			}
+			if g.End == "done" && haveStrace && len(g.H) > 0 && len(g.H[0].New) == len(c18ShapeU.Shapes) && g.H[0].Old.Ex && sysFull == nil {
+				// a complete save of one binding of every shape: each of its writes is killed / failed in turn
+				sysFull = &c18Case{G: g, V: c18Variant{API: "direct", Sys: "all", Salt: c.Seed + int64(i)}, Line: lines[i]}
+			}
+			if !inStride {
+				if !sp.must(g) {
+					continue
+				}
+				forced++
 			}
 			salt := c.Seed + int64(i)
 			cases = append(cases, c18Case{G: g, V: c18Variant{API: "direct", Salt: salt}, Line: lines[i]})
@@ -1701,8 +1794,8 @@ func checkC18(c *Ctx) {
 				extras = append(extras, c18Case{G: g, V: c18Variant{API: "direct", Late: late, Salt: salt}, Line: lines[i]})
 			}
 		}
-		c.Note("AutoSave GEN N=%d Vals=%s sessions=%d: %d states, %d transitions, %d session-ending behaviours emitted, %d replayed (stride %d)",
-			sp.n, sp.vals, sp.sessions, r.Distinct, r.Generated, len(lines), picked, stride)
+		c.Note("AutoSave GEN N=%d shapes=%v Vals=%v maxold=%d sessions=%d: %d states, %d transitions, %d session-ending behaviours emitted, %d replayed (stride %d, of which %d every write fault at a binding position)",
+			sp.n, sp.u.Shapes[:sp.n], sp.u.Vals, sp.maxOld, sp.sessions, r.Distinct, r.Generated, len(lines), picked, stride, forced)
 	}
 	// complete saves whose every file-system call becomes a crash point and a failure point (strace)
 	if !haveStrace {
@@ -1716,6 +1809,9 @@ func checkC18(c *Ctx) {
 		var first []c18Case
 		for i := int(c.Seed % int64(stride)); i < len(sysPool); i += stride {
 			first = append(first, sysPool[i])
+		}
+		if sysFull != nil {
+			first = append([]c18Case{*sysFull}, first...)
 		}
 		cases = append(first, cases...) // the long jobs start first
 	}
@@ -1993,9 +2089,9 @@ func c18SelfTest(c *Ctx, refs *c18Refs, runs [][]map[string]any) string {
 		}
 	}
 	// (d) the comparer
-	nw := refs.file[0]["1:1,2:1,"]
-	if c18Which(true, nw[:len(nw)/2], true, refs.file[0]["1:2,"], nw) != "neither" || c18Which(true, []byte{}, true, refs.file[0]["1:2,"], nw) != "neither" ||
-		c18Which(false, nil, true, refs.file[0]["1:2,"], nw) != "neither" {
+	nw := refs.file[0]["1:1d,2:1l,"]
+	if c18Which(true, nw[:len(nw)/2], true, refs.file[0]["1:2d,"], nw) != "neither" || c18Which(true, []byte{}, true, refs.file[0]["1:2d,"], nw) != "neither" ||
+		c18Which(false, nil, true, refs.file[0]["1:2d,"], nw) != "neither" {
 		return "the comparer accepts a truncated / empty / missing state file"
 	}
 	return ""
